@@ -426,29 +426,56 @@ func c13(r *core.Run) {
 			r.Violation("C13/R4", "split:"+c+":missing", p.Pos(unit.Pos()), "the emission is not distributed to "+c)
 		}
 	}
-	// the base passed to each split function is the emission value
+	// the base passed to each split function is the emission value (followed through a dispatching helper that is
+	// handed the base and calls the split functions itself)
 	nSplit := 0
-	allInstrs(unit, func(in ssa.Instruction) {
-		c, ok := in.(*ssa.Call)
-		if !ok || c == emission || c == getCall {
-			return
-		}
-		cal := p.Callees(c)
-		if len(cal) != 1 || len(p.Summary(cal[0]).Bank) == 0 {
-			return
-		}
-		if c == mintCall {
-			return
-		}
-		nSplit++
-		okb := false
-		for _, a := range dataArgs(c) {
-			if a.Type().String() == "int64" && mintedVal != nil && (core.SameValue(a, mintedVal) || isEmission(a)) {
-				okb = true
+	var checkSplits func(fn *ssa.Function, isBase func(ssa.Value) bool, depth int)
+	checkSplits = func(fn *ssa.Function, isBase func(ssa.Value) bool, depth int) {
+		allInstrs(fn, func(in ssa.Instruction) {
+			c, ok := in.(*ssa.Call)
+			if !ok || c == emission || c == getCall || c == mintCall {
+				return
 			}
-		}
-		r.Check(okb, "C13/R1", "blockmint:split-base:"+cal[0].Name(), p.InstrPos(c), "split base is the minted value", "a split is computed from a base other than the amount minted")
-	})
+			cal := p.Callees(c)
+			if len(cal) != 1 || len(p.Summary(cal[0]).Bank) == 0 {
+				return
+			}
+			baseIdx := -1
+			args := c.Call.Args
+			off := 0
+			if c.Call.IsInvoke() {
+				off = 1
+			}
+			for i, a := range args {
+				if a.Type().String() == "int64" && isBase(a) {
+					baseIdx = i + off
+				}
+			}
+			// a dispatcher: a callee that itself calls several functions moving coins
+			sub := 0
+			allInstrs(cal[0], func(in2 ssa.Instruction) {
+				if c2, ok := in2.(*ssa.Call); ok {
+					if cc := p.Callees(c2); len(cc) == 1 && len(p.Summary(cc[0]).Bank) > 0 {
+						sub++
+					}
+				}
+			})
+			if sub >= 2 && depth < 2 {
+				if baseIdx < 0 || baseIdx >= len(cal[0].Params) {
+					r.Violation("C13/R1", "blockmint:split-base:"+cal[0].Name(), p.InstrPos(c), "the distributing helper is not handed the amount minted")
+					return
+				}
+				prm := cal[0].Params[baseIdx]
+				checkSplits(cal[0], func(v ssa.Value) bool { return v == ssa.Value(prm) }, depth+1)
+				return
+			}
+			nSplit++
+			r.Check(baseIdx >= 0, "C13/R1", "blockmint:split-base:"+cal[0].Name(), p.InstrPos(c), "split base is the minted value", "a split is computed from a base other than the amount minted")
+		})
+	}
+	checkSplits(unit, func(a ssa.Value) bool {
+		return mintedVal != nil && (core.SameValue(a, mintedVal) || isEmission(a))
+	}, 0)
 	r.Floor("C13/R1", nSplit, 3, "split calls")
 }
 
